@@ -68,6 +68,8 @@ def drive(k, dts, end_time, skip_time=0.0, n_probes=0, fault=None, outdir=None, 
                 out["generated"] = r.run()
         except Stop as e:
             out["error"] = "Stop"
+        except KeyboardInterrupt:
+            out["error"] = "KeyboardInterrupt"
         except Exception as e:      # noqa
             out["error"] = f"{type(e).__name__}: {e}"
         out["files"] = sorted(os.listdir(td))
